@@ -23,19 +23,25 @@ def main():
     ap.add_argument("--replay", default=None)
     a = ap.parse_args()
     seed = int(os.environ.get("VERIF_SEED", "1"))
-    ctx = Ctx(a.prop, a.tier, seed)
+    tier = a.tier
+    rep = None
+    if a.replay:
+        # a replay file records the seed and tier of the run that produced it: every random choice of a check derives from
+        # that one seed, so re-running the check with it re-creates the failing input; the outcome for the recorded signature
+        # is reported (exit 1 = reproduced on the current tree)
+        with open(a.replay) as f:
+            rep = json.load(f)
+        seed = int(rep.get("seed", seed))
+        tier = rep.get("tier", tier)
+    ctx = Ctx(a.prop, tier, seed)
+    ctx.replay = rep
     try:
         mod = importlib.import_module("vlib.props." + a.prop)
     except ImportError as e:
         print("no check for property %s (%s)" % (a.prop, e), file=sys.stderr)
         return 2
-    if a.replay:
-        with open(a.replay) as f:
-            ctx.replay = json.load(f)
-        if hasattr(mod, "replay"):
-            return mod.replay(ctx)
-    else:
-        ctx.replay = None
+    if rep is not None and hasattr(mod, "replay"):
+        return mod.replay(ctx)
     return mod.run(ctx)
 
 
